@@ -1,4 +1,5 @@
 import Orca.Model.SemTree
+import Orca.Lemmas.SemBranch
 import Driver.Util
 import Driver.Lower
 /-!
@@ -123,6 +124,12 @@ def traceOf : FOut → List Nat
 
 def FUEL : Nat := 200000
 
+/-- the function is in the scope on which `c20_function_partial` proves the code's flag scheme right: a mismatch of a semantic-after
+    probe on a branch there is not one of the recorded findings (F14, F15, F27), whatever it looks like -/
+def provedC20 (F : Orca.Sem.Func) : Bool :=
+  let fl := Orca.Sem.flagsL F.body
+  Orca.Sem.scopedL fl F.body && fl.eraseDups.length == fl.length && (List.range 16).all (fun d => (Orca.Sem.pendingL d F.body).isEmpty)
+
 def propOfKind (k : String) : String :=
   match k with
   | "fentry" | "fexit" => "C17"
@@ -195,7 +202,8 @@ def runSem (toks : List String) : List String :=
                   let cs := (ps.filter (· == p.id)).length
                   let cr := (pr.filter (· == p.id)).length
                   let how := if cr > cs then "fires-more" else if cr < cs then "fires-less" else "fires-at-wrong-moment"
-                  [s!"prop={propOfKind p.kind} sig={p.kind}-{if p.ctx = "" then "any" else p.ctx}-{how} probe={p.id} args={args} want={ps} got={pr}"]
+                  let proved := if p.kind == "semafter-branch" && provedC20 F then "-in-proved-scope" else ""
+                  [s!"prop={propOfKind p.kind} sig={p.kind}-{if p.ctx = "" then "any" else p.ctx}-{how}{proved} probe={p.id} args={args} want={ps} got={pr}"]
               a ++ b ++ c
             -- one line per distinct signature
             let sigOf (l : String) : String := ((l.splitOn " ").filter (·.startsWith "sig=")).headD ""
